@@ -6,7 +6,9 @@ MC     MC_Compare.tla: T5 on the comparand universe: Eq is an equivalence, Lt a
 TRACE  all ordered pairs over ~45 comparands x 6 operators x every producer of
        each side (literal where one exists, '@.l'/'@.r' relative singular query,
        '$.c[i]' absolute singular query, value() function result), as
-       find('$.t[?L op R]', doc) records validated by TLC against JsonVal!Cmp.
+       find('$.t[?L op R]', doc) records validated by TLC against JsonVal!Cmp;
+       and all comparands as SIBLINGS under one array / object with the child
+       itself as a comparand ('$.t[?@ op x]'), in several orders.
 """
 from __future__ import annotations
 
@@ -120,6 +122,37 @@ def run(chk: core.Check, tier: str, seed: int) -> None:
                 for op in OPS:
                     recs.append(impl.rec_find(jp, f"$.t[?value(@.r) {op} {lit(sp, a)}]", doc, edoc=edoc))
                     recs.append(impl.rec_find(jp, f"$.t[?{lit(sp, a)} {op} value(@.l)]", doc, edoc=edoc))
+    # siblings: all comparands as the children of ONE array / object, the child itself ('@') being the comparand:
+    # each child is judged on its own, whatever was tested before it (equal-but-different kinds next to each other:
+    # 1, 1.0, true; 0, -0.0, false; "1"; [1], [true]; ...), in several orders
+    sibs = [c for c in COMPARANDS if c is not NOTHING and not (isinstance(c, int) and not isinstance(c, bool) and abs(c) > 10**30)]
+    def _ok(v):
+        try:
+            core.enc_value(v)
+            return True
+        except core.Unrepresentable:
+            return False
+
+    sibs = [c for c in sibs if _ok(c)]
+    scal = [c for c in sibs if not isinstance(c, (list, dict))]
+    n_before = len(recs)
+    for rnd in range(2 if tier == "quick" else 8):
+        order = list(sibs)
+        rng.shuffle(order)
+        for c in (rng.sample(scal, 12) if tier == "quick" else scal) + [1, True, 0, False, 1.0, -0.0]:
+            doc = {"t": order, "o": {f"k{i}": v for i, v in enumerate(order)}, "ref": c, "refs": [c]}
+            try:
+                edoc = core.enc_value(doc)
+            except core.Unrepresentable:
+                continue
+            for op in (OPS if tier != "quick" else rng.sample(OPS, 2)):
+                for q in (f"$.t[?@ {op} {lit(sp, c)}]", f"$.o[?{lit(sp, c)} {op} @]", f"$.t[?@ {op} $.ref]", f"$.o[?value(@) {op} $.refs[0]]",
+                          f"$.t[?@ {op} @]", f"$..[?@ {op} {lit(sp, c)}]"):
+                    if tier != "quick" or rng.random() < 0.5:
+                        recs.append(impl.rec_find(jp, q, doc, edoc=edoc))
+    chk.notes["sibling_records"] = len(recs) - n_before
+    if len(recs) - n_before < 50:
+        raise core.MachineryError("the sibling documents produced no records")
     recs += common.inplace_edit_records(jp, common.ROOT_QUERIES)
     for r in recs:
         chk.nontrivial.add((tuple(r["q"]), str(r["doc"])[:300]))
